@@ -723,3 +723,106 @@ Proof. unfold spec, model. destruct (dec_case i) as [[c ops] outs]. destruct (mo
     unfold run in *. destruct (run_gen true (init c outs) ops) as [s tr]. cbn [snd] in HWk.
     unfold sx_nth. cbn [sx_l nth]. rewrite dec_enc_tr, sx_bool_of_bool, sx_eqb_refl. cbn [andb].
     destruct (reliable outs); [now apply HS|exact HWk]. Qed.
+
+(* ---------- the fuel of bwrite is enough (so the out-of-fuel default is never observed) ---------- *)
+(* a sink never answers (0, nil) to a non-empty write: otherwise bufio.Writer.Write spins *)
+Definition out_wf (o : outcome) : bool := match o_short o with Some 0 => o_err o | _ => true end.
+Definition outs_wf (k0 : sk) : bool := forallb out_wf k0.
+Lemma outs_wf_tl k0 : outs_wf k0 = true -> outs_wf (tl k0) = true.
+Proof. destruct k0; cbn; [auto|]. intros H. apply andb_true_iff in H. tauto. Qed.
+Lemma bwrite_err f b k0 p : berr b <> 0 -> bwrite f b k0 p = (0, berr b, b, [], k0).
+Proof. intros H. apply Nat.eqb_neq in H. destruct f; cbn [bwrite]; [reflexivity|]. now rewrite H, andb_false_r. Qed.
+Definition need (b : bufio) (p : bytes) : nat := 2 * length p + (if is_nil (buf b) then 0 else 1) + 1.
+
+Lemma sink_write_wf k0 p : outs_wf k0 = true -> p <> [] ->
+  let '(n, e, es, k1) := sink_write k0 p in k1 = tl k0 /\ (e <> 0 \/ 1 <= n).
+Proof. intros Hk Hp. unfold sink_write. split; [reflexivity|]. destruct (o_err (next_out k0)) eqn:E; [left; discriminate|right].
+  assert (W : out_wf (next_out k0) = true).
+  { destruct k0; [reflexivity|]. cbn in *. apply andb_true_iff in Hk. tauto. }
+  unfold out_wf in W. destruct p; [congruence|]. destruct (o_short (next_out k0)) as [[|m]|]; cbn; try lia. congruence. Qed.
+
+Lemma bwrite_fuel f : forall b k0 p extra, outs_wf k0 = true -> need b p <= f ->
+  bwrite (f + extra) b k0 p = bwrite f b k0 p.
+Proof. induction f as [|f IH]; intros b k0 p extra Hk Hn; [unfold need in Hn; lia|].
+  cbn [Nat.add bwrite]. destruct ((avail b <? length p) && (berr b =? 0)) eqn:C; [|reflexivity].
+  apply andb_true_iff in C as [C1 C2]. apply Nat.ltb_lt in C1. apply Nat.eqb_eq in C2.
+  assert (Hp : p <> []) by (destruct p; cbn in C1; [lia|discriminate]).
+  unfold need in Hn. destruct (is_nil (buf b)) eqn:E.
+  - pose proof (sink_write_wf k0 p Hk Hp) as H. destruct (sink_write k0 p) as [[[n e] es] k1]. destruct H as [-> [He|Hn1]].
+    + rewrite !bwrite_err by (cbn; exact He). reflexivity.
+    + rewrite IH; [reflexivity|now apply outs_wf_tl|]. unfold need. cbn [set_buf buf]. rewrite E, skipn_length. lia.
+  - set (b0 := set_buf b (buf b ++ firstn (avail b) p) (berr b)).
+    assert (F : let '(e1, b1, es, k1) := bflush b0 k0 in k1 = tl k0 /\ (berr b1 <> 0 \/ buf b1 = [])).
+    { unfold bflush, b0. cbn [set_buf berr buf]. rewrite C2. cbn [Nat.eqb negb].
+      destruct (is_nil (buf b ++ firstn (avail b) p)) eqn:E2.
+      - apply is_nil_true in E2. apply app_eq_nil in E2 as [E2 _]. apply is_nil_false in E. congruence.
+      - unfold sink_write. 
+        destruct ((if (_ <? _) && (_ =? 0) then 2 else _) =? 0) eqn:Z; (split; [reflexivity|]); cbn [set_buf berr buf]; [right; reflexivity|left].
+        now apply Nat.eqb_neq in Z. }
+    destruct (bflush b0 k0) as [[[e1 b1] es] k1]. destruct F as [-> [He|Hb]].
+    + rewrite !bwrite_err by exact He. reflexivity.
+    + rewrite IH; [reflexivity|now apply outs_wf_tl|]. unfold need. rewrite Hb. cbn [is_nil]. rewrite skipn_length. lia.
+Qed.
+Corollary wfuel_enough b k0 p extra : outs_wf k0 = true ->
+  bwrite (wfuel p + extra) b k0 p = bwrite (wfuel p) b k0 p.
+Proof. intros Hk. apply bwrite_fuel; [exact Hk|]. unfold need, wfuel. destruct (is_nil (buf b)); lia. Qed.
+
+(* ---------- corollaries over histories: stream equality, crash points, acknowledged data ---------- *)
+Lemma concat_map_concat {A} (g : list (list (list A))) : concat (map (@concat A) g) = concat (concat g).
+Proof. induction g as [|a r IH]; cbn; [reflexivity|]. now rewrite concat_app, IH. Qed.
+Lemma Grp_stream acc sw b : Grp acc sw b -> concat sw ++ b = concat acc.
+Proof. intros (g & r & -> & -> & ->). now rewrite concat_app, concat_map_concat. Qed.
+
+Theorem stream_rel_thm c outs ops : reliable outs = true ->
+  let '(s, tr) := run (init c outs) ops in
+  concat (received (all_evs tr)) ++ buf (w s) = concat (accepted ops).
+Proof. intros Hr. pose proof (whole_thm c outs ops Hr) as H. destruct (run (init c outs) ops) as [s tr].
+  destruct H as [H _]. now apply Grp_stream. Qed.
+
+Lemma run_app fx a : forall s b,
+  run_gen fx s (a ++ b) =
+    let '(s1, t1) := run_gen fx s a in let '(s2, t2) := run_gen fx s1 b in (s2, t1 ++ t2).
+Proof. induction a as [|o r IH]; intros s b; cbn [app run_gen].
+  - destruct (run_gen fx s b) as [s2 t2]. reflexivity.
+  - destruct (step_gen fx s o) as [[s1 rs] es]. rewrite IH. destruct (run_gen fx s1 r) as [s2 t1].
+    destruct (run_gen fx s2 b) as [s3 t2]. reflexivity. Qed.
+Lemma all_evs_app a b : all_evs (a ++ b) = all_evs a ++ all_evs b.
+Proof. unfold all_evs. now rewrite map_app, concat_app. Qed.
+
+(* a crash after any prefix ops1 of any history: what the sink holds then is whole-write aligned
+   (whole_thm for ops1) and everything the sink holds later extends it *)
+Theorem crash_thm c outs ops1 ops2 : reliable outs = true ->
+  let '(s1, tr1) := run (init c outs) ops1 in
+  let '(s2, tr2) := run (init c outs) (ops1 ++ ops2) in
+  Grp (accepted ops1) (received (all_evs tr1)) (buf (w s1)) /\
+  exists more, tr2 = tr1 ++ more /\ received (all_evs tr2) = received (all_evs tr1) ++ received (all_evs more).
+Proof. intros Hr. pose proof (whole_thm c outs ops1 Hr) as H. unfold run in *. rewrite run_app.
+  destruct (run_gen true (init c outs) ops1) as [s1 tr1]. destruct (run_gen true s1 ops2) as [s2 t2].
+  split; [apply H|]. exists t2. split; [reflexivity|]. now rewrite all_evs_app, received_app. Qed.
+
+(* everything accepted before a Sync / processed tick / Stop is in the sink at every later point *)
+Theorem acked_thm c outs ops o ops2 : reliable outs = true ->
+  flushing o (loop (fst (run (init c outs) ops))) = true ->
+  let '(s2, tr2) := run (init c outs) (ops ++ o :: ops2) in
+  exists more, concat (received (all_evs tr2)) = concat (accepted ops) ++ more.
+Proof. intros Hr Hfl. pose proof (sync_thm c outs ops o Hr) as Hs. pose proof (stream_rel_thm c outs (ops ++ [o]) Hr) as Hst.
+  unfold run in *. change (o :: ops2) with ([o] ++ ops2). rewrite app_assoc, run_app, run_app. rewrite run_app in Hst.
+  destruct (run_gen true (init c outs) ops) as [s0 tr0]. cbn [fst] in Hfl. cbn [run_gen] in *. unfold step in Hs.
+  destruct (step_gen true s0 o) as [[s1 r] es]. destruct (Hs Hfl) as [Hb _].
+  destruct (run_gen true s1 ops2) as [s2 t2]. rewrite Hb, app_nil_r in Hst.
+  exists (concat (received (all_evs t2))). rewrite all_evs_app, received_app, concat_app, Hst.
+  rewrite accepted_app. unfold accepted at 2. destruct o; cbn in Hfl |- *; try discriminate; now rewrite !app_nil_r. Qed.
+
+(* from a fresh syncer, any sink: bytes consumed = bytes in the sink ++ bytes still buffered *)
+Theorem faulty_stream_thm fx c outs ops :
+  let '(s, tr) := run_gen fx (init c outs) ops in
+  consumed ops tr = concat (received (all_evs tr)) ++ buf (w s).
+Proof. pose proof (stream_thm fx ops (init c outs) (fun _ => eq_refl)) as H.
+  destruct (run_gen fx (init c outs) ops) as [s tr]. exact H. Qed.
+
+Theorem stop_idempotent_thm fx s :
+  let s1 := fst (fst (step_gen fx s Stop)) in
+  let '(s2, r, es) := step_gen fx s1 Stop in
+  w s2 = w s1 /\ inited s2 = inited s1 /\ stopped s2 = stopped s1 /\ loop s2 = loop s1 /\
+  (es = [] \/ es = [ES]) /\ (reliable (k s1) = true -> r = RStop 0).
+Proof. intros s1. apply stop_again. apply stop_reaches_done. Qed.
